@@ -3,7 +3,7 @@ Real callVariant vs the Lean definition Spec.callVariant on generated inputs (de
 clusters, both strands, coding/non-coding, cds_start_NF, mRNA_end_NF, selenoproteins);
 node-collapsing parameters must not change the output."""
 from . import common, cv_checks
-from .cv_checks import KF_EXC, KF_NOLA, KF_WIDE, KF_NESTED
+from .cv_checks import KF_EXC, KF_NOLA, KF_WIDE, KF_NESTED, KF_NESTED_EDGE
 
 
 KF_SECANCHOR = 'sec-codon-touched-by-anchor-unlabelled-stop'
@@ -90,6 +90,28 @@ def judge(ctx, res, stream):
                        'n_expected': len(SA), 'n_reported': len(real)})
         core_missing = (SA & SB) - real
         exc_missing = (SA - real) - core_missing
+        if core_missing and cv_checks.has_edge_nested(r):
+            # open finding record-on-edge-of-inserted-stretch: the definition is evaluated once more
+            # WITHOUT the forms of the splicing records that carry a record on the edge of the
+            # inserted stretch; a missing peptide that disappears with them is explained by the
+            # finding, any other missing peptide goes through the usual classification below
+            edge_ids = {e[1] for e in r['desc'].get('edge_nested', [])}
+            fields = r['line_A'].split('\t')
+            forms = fields[9].split(';') if fields[9] else []
+            keep = [f_ for f_, v in zip(forms, r['desc']['vars'])
+                    if not (isinstance(v[5], (tuple, list)) and edge_ids & set(v[5][1:]))]
+            if len(forms) == len(r['desc']['vars']) and len(keep) < len(forms):
+                outs = ctx.lean(['\t'.join(fields[:9] + [';'.join(keep)] + fields[10:])])
+                if outs is not None:
+                    s_wo = cv_checks.to_set(outs[0])
+                    on_edge = core_missing - s_wo
+                    if on_edge:
+                        ctx.add_violation(
+                            f'{len(on_edge)} peptide(s) that need a record on the first / last base of the stretch '
+                            f'a splicing record inserts are missing, e.g. {sorted(on_edge)[:3]}',
+                            cv_checks.replay_of(r, kind='missing', missing=sorted(on_edge)),
+                            finding_key=KF_NESTED_EDGE)
+                        core_missing = core_missing - on_edge
         if core_missing:
             ctx.add_violation(
                 f'{len(core_missing)} peptide(s) of the definition are missing from the callVariant '
@@ -117,6 +139,173 @@ def judge(ctx, res, stream):
                         f'(status {v["status"]}; lost {sorted(real - set(v["real"]))[:3]}, '
                         f'gained {sorted(set(v["real"]) - real)[:3]})',
                         cv_checks.replay_of(r, kind='collapse', collapse=v['what']))
+
+
+# ---------------------------------------------------------------------------------------------
+# internal stream: the two enumerators of compatible combinations (Spec.haplotypes written out on
+# `sublists` vs Spec.haplotypesFast / prunedSublists; `@[csimp] haplotypes_eq_fast` makes the
+# compiled oracle run the pruned one).  The reference below is an independent statement of the
+# DEFINITION in Python; the driver ops `S hap` / `S haptx` evaluate the definition by hand, the
+# pruned enumerator by name and the constant `haplotypes` as compiled, and answer `ok …` only if
+# all agree (and if (a) separated∘sort = pairwiseOk, (b) filter = pruned hold on every
+# sub-collection of the pool).
+HAP_MAX_POOL = 14
+HAP_MAX_OUT = 4000
+_CLS_LETTERS = ['S', 'S', 'I', 'I', 'D', 'O']
+
+
+def _ref_sublists(xs):
+    """all sub-collections in the order of Spec.sublists (`r ++ r.map (x :: ·)`)"""
+    if len(xs) > HAP_MAX_POOL:
+        raise ValueError('reference enumeration is exponential: pool too large')
+    if not xs:
+        return [[]]
+    r = _ref_sublists(xs[1:])
+    return r + [[xs[0]] + s_ for s_ in r]
+
+
+def _ref_haplotypes(pool):
+    """the definition: every sub-collection, put in ascending order of start (stable), kept when
+    non-empty and each record ends strictly before the next one starts"""
+    out = []
+    for sub in _ref_sublists(pool):
+        h = sorted(sub, key=lambda v: v['start'])
+        if h and all(a['stop'] < b['start'] for a, b in zip(h, h[1:])):
+            out.append(h)
+    return out
+
+
+def _render_var(v):
+    return f"{v['start']}-{v['stop']}-" + '+'.join(str(i) for i in v['ids'])
+
+
+def _render_hap(h):
+    return ','.join(_render_var(v) for v in h)
+
+
+def _render_haps(hs):
+    return f'{len(hs)}|' + ';'.join(_render_hap(h) for h in hs)
+
+
+def _var_field(v):
+    return f"{v['start']}:{v['stop']}:{v['ref']}:{v['alt']}:{v['cls']}:" + '+'.join(str(i) for i in v['ids'])
+
+
+def _ref_usable(t, v):
+    """Spec.usable, restated: behind the start codon (an indel anchored on its last base is moved
+    to its right end when the transcript has a base there), not touching the last annotated codon
+    of an mRNA_end_NF transcript"""
+    start_index = (t['orf'][0] if t['coding'] else 0) + 3
+    if v['start'] + 1 == start_index and v['cls'] == 'I' and v['stop'] < len(t['seq']):
+        v = dict(v, start=v['start'] + 1, stop=v['stop'] + 1)
+    if v['start'] < start_index:
+        return None
+    tx_end = t['orf'][1] if t['coding'] else len(t['seq'])
+    if t['end_nf'] and v['start'] < tx_end and max(tx_end - 3, 0) < v['stop']:
+        return None
+    return v
+
+
+def _ref_pool(t, vs):
+    us = [u for u in (_ref_usable(t, v) for v in vs) if u is not None]
+    merged = [dict(start=a['start'], stop=b['stop'], ids=a['ids'] + b['ids'], cls='O', ref='', alt='')
+              for a in us for b in us
+              if a['stop'] == b['start'] and a['cls'] in ('S', 'I') and a['cls'] == b['cls']]
+    return us + merged
+
+
+def _gen_records(rng, n, lo, width):
+    """n records around [lo, lo+width): plain, ties in start, adjacent, overlapping, duplicates,
+    zero-length and stop < start"""
+    recs = []
+    for i in range(n):
+        kind = rng.choice(['plain'] * 5 + ['tie', 'tie', 'adjacent', 'adjacent', 'dup', 'empty', 'inverted'])
+        if not recs and kind in ('tie', 'adjacent', 'dup'):
+            kind = 'plain'
+        ids = [i] if rng.random() < 0.85 else [i, 100 + i]
+        cls = rng.choice(_CLS_LETTERS)
+        if kind == 'dup':
+            recs.append(dict(rng.choice(recs)))
+            continue
+        if kind == 'tie':
+            start = rng.choice(recs)['start']
+        elif kind == 'adjacent':
+            o = rng.choice(recs)
+            start = o['stop']
+            if rng.random() < 0.7:
+                cls = o['cls']
+        else:
+            start = lo + rng.randrange(max(width, 1))
+        if kind == 'empty':
+            stop = start
+        elif kind == 'inverted':
+            stop = max(0, start - rng.randint(1, 6))
+        else:
+            stop = start + rng.choice([1, 1, 1, 2, 3, 5])
+        ln = max(stop - start, 1)
+        recs.append(dict(start=start, stop=stop, ref='A' * ln, alt=rng.choice(['C', 'CG', 'G']),
+                         cls=cls, ids=ids))
+    return recs
+
+
+def hap_enumerators(ctx):
+    sizes = [0, 1, 2, 2, 3, 3, 4, 4, 5, 5, 6, 6, 7, 8, 8, 9, 10, 11, 12, 13, 14]
+    cases = []
+    for k in range(ctx.n(260, 2500)):
+        rng = ctx.rng('hap-enumerators', k)
+        n = rng.choice(sizes)
+        # dense pools (few compatible combinations) and loose ones
+        width = rng.choice([3, 6, 10, 20, 40]) if n <= 10 else rng.choice([3, 6, 10, 16])
+        pool = _gen_records(rng, n, rng.choice([0, 3, 7]), width)
+        exp = _ref_haplotypes(pool)
+        while len(exp) > HAP_MAX_OUT:
+            pool.pop()
+            exp = _ref_haplotypes(pool)
+        line = '\t'.join(['S', 'hap', ';'.join(_var_field(v) for v in pool)])
+        cases.append((line, 'ok ' + _render_haps(exp), {'pool': [_render_var(v) for v in pool],
+                                                        'n_combinations': len(exp)}))
+        ctx.count('hap-enumerators', f'pool_size_{len(pool)}')
+        if any(v['stop'] < v['start'] for v in pool):
+            ctx.count('hap-enumerators', 'with_stop_before_start')
+        if len({v['start'] for v in pool}) < len(pool):
+            ctx.count('hap-enumerators', 'with_tie_in_start')
+    ctx.diff_stream('hap-enumerators', cases, observable=False, describe=lambda o: o,
+                    nontrivial=lambda real: not real.startswith('ok 0|'))
+    cases = []
+    for k in range(ctx.n(140, 1500)):
+        rng = ctx.rng('hap-enumerators-tx', k)
+        ln = rng.choice([30, 45, 60])
+        seq = ''.join(rng.choice('ACGT') for _ in range(ln))
+        coding = rng.random() < 0.6
+        o0 = rng.randrange(0, 7)
+        o1 = rng.randrange(max(o0 + 3, ln - 12), ln + 1)
+        t = dict(seq=seq, coding=coding, orf=(o0, o1) if coding else None, start_nf=rng.random() < 0.2,
+                 end_nf=rng.random() < 0.4, sec=[])
+        si = (o0 if coding else 0) + 3
+        end = o1 if coding else ln
+        where = rng.choice(['start', 'start', 'end', 'mid'])
+        lo = max(0, si - 3) if where == 'start' else (max(0, end - 10) if where == 'end' else si + 5)
+        vs = _gen_records(rng, rng.choice([1, 2, 3, 4, 5, 6, 7, 8, 9, 10]), lo, rng.choice([4, 8, 14]))
+        pool = _ref_pool(t, vs)
+        while len(pool) > HAP_MAX_POOL:     # merged pairs can multiply the pool: cap it BEFORE the
+            vs.pop()                        # 2^n reference enumeration
+            pool = _ref_pool(t, vs)
+        exp = _ref_haplotypes(pool)
+        while len(exp) > HAP_MAX_OUT:
+            vs.pop()
+            pool = _ref_pool(t, vs)
+            exp = _ref_haplotypes(pool)
+        line = '\t'.join(['S', 'haptx'] + cv_checks.cv_explore.tx_fields(t) + [';'.join(_var_field(v) for v in vs)])
+        cases.append((line, 'pool ' + _render_hap(pool) + ' ok ' + _render_haps(exp),
+                      {'tx': {k_: t[k_] for k_ in ('coding', 'orf', 'end_nf')}, 'len': ln,
+                       'records': [_render_var(v) for v in vs], 'n_combinations': len(exp)}))
+        ctx.count('hap-enumerators-tx', f'pool_size_{len(pool)}')
+        if len(pool) > len([v for v in vs if _ref_usable(t, v) is not None]):
+            ctx.count('hap-enumerators-tx', 'with_merged_pair')
+        if len(pool) < len(vs):
+            ctx.count('hap-enumerators-tx', 'with_unusable_record')
+    ctx.diff_stream('hap-enumerators-tx', cases, observable=False, describe=lambda o: o,
+                    nontrivial=lambda real: ' ok 0|' not in real)
 
 
 def run(ctx: common.Ctx):
@@ -148,6 +337,16 @@ def run(ctx: common.Ctx):
         'against Tvg.attachedSubs of the model graph (Props.C01.tvg_attached_subs_spec), prefixed by whether '
         'the input satisfies Tvg.poolInputOk (evaluated independently in Python on the real call arguments); '
         'non-trivial = some path takes two or more records')
+    ctx.coverage['rule'] += (
+        '. Internal streams hap-enumerators / hap-enumerators-tx: generated record pools of 0-14 records '
+        '(ties in start, adjacent, overlapping, duplicate, zero-length and stop < start records; with a '
+        'transcript: records around the start codon / the last codon of mRNA_end_NF transcripts, merged '
+        'adjacent pairs): the driver evaluates the body of Spec.haplotypes by hand (all 2^n sub-collections), '
+        'Spec.haplotypesFast by name and the constant Spec.haplotypes as compiled (csimp) and must return '
+        'the list an independent Python statement of the definition gives, in order; it also re-evaluates '
+        'separated(sortByStart s) = pairwiseOk s and filter = prunedSublists on every sub-collection; '
+        'non-trivial = at least one compatible combination')
+    hap_enumerators(ctx)
     base = dict(vary=True, per_tx=(1, 7), max_size=6, window=24, witness=False, as_frac=0.3, junction_mnv=0.1)
     res = cv_checks.explore(ctx, ctx.n(220, 4000), dict(base, exception=None, variations=['collapse'], stages=True,
                                                         tvgbuild=True))
